@@ -57,6 +57,9 @@ func solveAll(obls []*Obligation, scratch string, timeoutS int, workers int) []*
 }
 
 func main() {
+	// type aliases (osmomath.Dec = sdkmath.LegacyDec) must be transparent: heap keys and
+	// contract keys are derived from type names
+	os.Setenv("GODEBUG", "gotypesalias=0")
 	if len(os.Args) < 2 {
 		fmt.Fprintln(os.Stderr, "usage: govc check <PROP> <quick|thorough> | govc vc <pkg-pattern> <func-substring> [-v]")
 		os.Exit(2)
@@ -66,6 +69,8 @@ func main() {
 		cmdVC(os.Args[2:])
 	case "check":
 		os.Exit(cmdCheck(os.Args[2:]))
+	case "standin":
+		os.Exit(cmdStandin(os.Args[2:]))
 	case "selftest":
 		os.Exit(cmdSelftest(os.Args[2:]))
 	default:
